@@ -180,7 +180,7 @@ type Case struct {
 	Base     string
 	Kind     string // proposal | accept | reject | execute | abort
 	Claimed  string // L | B | M | J | X  (whose address the packet claims to come from)
-	Signer   string // same letters: whose key signs; "Xsub": attacker key, substituted into the participant lists under the claimed sender's address
+	Signer   string // same letters: whose key signs; "Xsub": attacker key, substituted into the participant lists under the claimed sender's address; "Xdup": attacker key listed as an additional joiner under the claimed sender's address
 	Mutation string
 	Legit    bool // the reference predicate: this packet may change M's state
 	// PreSign applies the mutation BEFORE signing: a correctly signed packet whose terms are invalid (C08)
@@ -283,6 +283,16 @@ func (w *World) build(t Case, over *pdkg.ProposalTerms, now time.Time) (*pdkg.Go
 		return nil, false
 	}
 	signer := w.kp(t.Signer)
+	if t.Signer == "Xdup" {
+		// attacker key under the claimed sender's address, listed IN ADDITION to the genuine entry (as a joiner): whichever
+		// entry the verifier picks for that address decides whose key the signature is checked against
+		atk := fix.DetKeyPair("c09/attacker-dup-"+t.Claimed, claimed.Address, w.Sch)
+		signer = atk
+		if t.Kind != "proposal" {
+			return nil, false
+		}
+		terms.Joining = append(terms.Joining, Part(atk))
+	}
 	if t.Signer == "Xsub" {
 		// attacker key under the claimed sender's address, substituted wherever that sender is listed
 		atk := fix.DetKeyPair("c09/attacker-as-"+t.Claimed, claimed.Address, w.Sch)
